@@ -88,8 +88,8 @@ fn o3_2<const N: usize, const OPS: usize>() {
             (Some(_), Some(Err(_))) => panic!("error from an error-free source"),
         }
     }
-    kani::cover!(m < N && fi > 0 && bi > 0, "shadowed version skipped with both ends used");
-    kani::cover!(m == N && fi + bi == N);
+    kani::cover!(m < N && fi + bi == m, "a shadowed version was skipped and every key came out");
+    kani::cover!(m == N && fi > 0 && bi > 0 && fi + bi == N, "both ends used until they met");
     std::mem::forget(stream);
 }
 
